@@ -145,7 +145,14 @@ def run_history(world, tid, actions, events, r_=None, steps=0):
 def judge(ck, world, events, label):
     if not events:
         return
-    verdicts = ck.trace("ConfiguredPkg_Trace", [world.header()] + events, label=label, timeout=1700)
+    # chunks end at history boundaries (every history starts with "init", which is judged on its own)
+    verdicts, chunk = [], []
+    for k, e in enumerate(events):
+        chunk.append(e)
+        last = k + 1 == len(events)
+        if last or (len(chunk) >= 4000 and events[k + 1]["tid"] != e["tid"]):
+            verdicts += ck.trace("ConfiguredPkg_Trace", [world.header()] + chunk, label=label, timeout=1700)
+            chunk = []
     by = {(e["tid"], e["i"]): e for e in events}
     for v in verdicts:
         e = by[(v["tid"], v["i"])]
@@ -159,13 +166,13 @@ def judge(ck, world, events, label):
                                        universe=world.uni, history=hist, observed=e["st"]))
 
 
-def random_universe(r_):
-    nf = r_.randint(3, 5)
+def random_universe(r_, maxflags=5):
+    nf = r_.randint(3, maxflags)
     flags = ["a", "b", "c", "d", "e"][:nf]
     locked = [f for f in flags if r_.random() < 0.3][:2]
 
     def reveal(mk_on, mk_off):
-        return " ".join(f"{f}? ( {mk_on(f)} ) !{f}? ( {mk_off(f)} )" for f in flags if r_.random() < 0.8)
+        return " ".join(f"{f}? ( {mk_on(f)} ) !{f}? ( {mk_off(f)} )" for f in flags if r_.random() < 0.7)
 
     def extra(leaves, anyof):
         f, g = r_.sample(flags, 2)
@@ -256,11 +263,11 @@ def run(ck):
     judge(ck, w, events, "Trace:sim-histories")
     # 3. code -> spec
     r_ = rng(14)
-    for u in range(ck.pick(2, 10)):
-        uni = random_universe(r_)
+    for u in range(ck.pick(2, 6)):
+        uni = random_universe(r_, ck.pick(4, 5))
         w = World(api, uni)
         events = []
-        for tid in range(ck.pick(60, 300)):
+        for tid in range(ck.pick(60, 200)):
             hist = run_history(w, tid, None, events, r_=r_, steps=r_.randint(4, ck.pick(10, 16)))
             ck.count()
             if nontrivial(hist):
